@@ -1,14 +1,17 @@
 package sim
 
 import (
+	"bytes"
 	"encoding/json"
 	"errors"
 	"fmt"
 	"io"
 	"io/fs"
 	"os"
+	"os/exec"
 	"path"
 	"path/filepath"
+	"regexp"
 	"sort"
 	"strings"
 	"syscall"
@@ -48,6 +51,10 @@ type FsCase struct {
 	RootSwitch string `json:"root_switch,omitempty"` // after a first round of loads the root symlink is re-pointed to this directory
 	Cwd        string `json:"cwd,omitempty"`         // working directory relative to base ("" = base); relative roots are spelled against it
 	CwdVia     string `json:"cwd_via,omitempty"`     // the working directory is entered through this path (a directory link) and $PWD spells it that way
+	// CLI: some loads also go through the repository's own command-line tool
+	// (`elps run --root-dir <root> -e '(load-file "...")'`, built from the
+	// tree under test and run as a subprocess against the same disk)
+	CLI bool `json:"cli,omitempty"`
 
 	hintLoc, hintLoader, hintVia string
 }
@@ -195,6 +202,9 @@ func (fsEngine) Gen(r *Rand, tier string) any {
 			c.Adv = adv
 		}
 	}
+	if !c.MemFS && c.Adv == nil && c.RootSwitch == "" && r.Chance(1, 4) {
+		c.CLI = true
+	}
 	for i := 0; i < 260; i++ {
 		c.Picks = append(c.Picks, r.U64())
 	}
@@ -335,7 +345,9 @@ func chainSim(entry string, resolve func(from, loc string) (string, bool)) ([]st
 }
 
 func fileContent(p string) string {
-	return fmt.Sprintf(";; file %s\n(sim:mark %s)\n%s\n", p, LispString(p), chainFiles[p])
+	// the debug-print line is how a process that has no sim package (the
+	// command-line tool) shows which files it evaluated
+	return fmt.Sprintf(";; file %s\n(debug-print %s)\n(sim:mark %s)\n%s\n", p, LispString("zz-mark:"+p), LispString(p), chainFiles[p])
 }
 
 func (d *fsDisk) abs(t string) string {
@@ -641,6 +653,9 @@ func (fsEngine) Run(ci any, st *Stats) *Violation {
 		loads = append([]fsLoad{{via: "LoadSource", loader: "", loc: d.base + "/root/f0.lisp"}, {via: "switch"}}, loads...)
 	}
 	for _, ld := range loads {
+		if ld.via == "cli" {
+			continue
+		}
 		if ld.via == "switch" {
 			link := filepath.Join(d.base, "rootlink")
 			if os.Remove(link) != nil || os.Symlink(c.RootSwitch, link) != nil {
@@ -880,9 +895,82 @@ func (fsEngine) Run(ci any, st *Stats) *Violation {
 			h = h.Str("err")
 		}
 	}
+	// the repository's own command-line tool against the same disk
+	if bin := os.Getenv("VERIF_ELPS_BIN"); bin != "" && (c.CLI || c.OnlyVia == "cli") && c.Adv == nil {
+		var locs []string
+		if c.OnlyVia == "cli" {
+			locs = []string{c.OnlyLoc}
+		} else if c.OnlyLoc == "" {
+			// every entry of the layout under the root's real directory, spelled
+			// relative to the root: links first
+			var links, others []string
+			for _, n := range c.Nodes {
+				if !strings.HasPrefix(n.Path, rootReal+"/") {
+					continue
+				}
+				rel := strings.TrimPrefix(n.Path, rootReal+"/")
+				if n.Kind == "link" {
+					links = append(links, rel)
+				} else if n.Kind == "file" {
+					others = append(others, rel)
+				}
+			}
+			sort.Strings(links)
+			sort.Strings(others)
+			locs = append(links, "../outside/s0.lisp", "a/../../outside/s0.lisp", d.base+"/outside/s0.lisp")
+			for i := 0; i < 3 && i < len(others); i++ {
+				locs = append(locs, others[int(c.Picks[i%len(c.Picks)]%uint64(len(others)))])
+			}
+			if len(locs) > 14 {
+				locs = locs[:14]
+			}
+		}
+		for _, loc := range locs {
+			cmd := exec.Command(bin, "run", "--root-dir", rootDir, "-e", fmt.Sprintf("(load-file %s)", LispString(loc)))
+			var outb bytes.Buffer
+			cmd.Stdout, cmd.Stderr = &outb, &outb
+			if err := cmd.Start(); err != nil {
+				return Violf("harness", "cannot start %s: %v", bin, err)
+			}
+			done := make(chan error, 1)
+			go func() { done <- cmd.Wait() }()
+			select {
+			case <-done:
+			case <-time.After(60 * time.Second):
+				_ = cmd.Process.Kill()
+				return Violf("harness", "elps run did not finish within 60 s")
+			}
+			st.Runs++
+			st.Inc("loads_via_command_line_tool")
+			text := outb.String()
+			fail := func(oracle, format string, a ...any) *Violation {
+				c.hintLoc, c.hintLoader, c.hintVia = strings.ReplaceAll(loc, d.base, "@"), "", "cli"
+				return Violf(oracle, "elps run --root-dir %s -e (load-file %q): %s", c.RootSpec, strings.ReplaceAll(loc, d.base, "@"), strings.ReplaceAll(fmt.Sprintf(format, a...), d.base, "@"))
+			}
+			if strings.Contains(text, "goroutine ") && strings.Contains(text, "panic:") {
+				return fail("go-panic-escaped", "%.300s", text)
+			}
+			var marks []string
+			for _, m := range cliMark.FindAllStringSubmatch(text, -1) {
+				marks = append(marks, m[1])
+			}
+			for _, node := range marks {
+				if !insideRoot(node) {
+					return fail("evaluated-outside-root", "the tool evaluated the file %q, whose real path is outside the root", node)
+				}
+			}
+			if len(marks) > 0 {
+				st.Inc("served_inside_root")
+			}
+			h = h.Str("cli").Str(strings.Join(marks, " "))
+			nontrivial = true
+		}
+	}
 	st.NoteHash(h, nontrivial)
 	return nil
 }
+
+var cliMark = regexp.MustCompile(`zz-mark:([^"\\\s]+)`)
 
 // ------------------------------------------------------------- in-memory FS
 
